@@ -172,6 +172,68 @@ PROPS["C03"] = dict(
                  "header-name matching is case-sensitive in the code; the property does not say otherwise"],
 )
 
+def c18_search(pid, proofs, seed):
+    """A C18 theorem no longer holds for the regenerated constants: compute the least concrete
+    configuration / request whose reply exceeds its buffer (from the source's own numbers)."""
+    import re
+    from .engine import Finding
+    from . import core
+    consts = {}
+    for m in re.finditer(r"Definition (\w+) : (N|bool) := (\w+)", open(core.COQ + "/Gen/Consts.v").read()):
+        v = m.group(3)
+        consts[m.group(1)] = (v == "true") if m.group(2) == "bool" else int(re.sub(r"\D", "", v) or 0)
+    out = []
+    def add(what, **kw):
+        out.append(Finding("proof", what, dict(kw, constants=consts, failed_theorems=proofs["failed"]), failing_input=True))
+    buf = consts["udp_BUFFER_SIZE"]
+    lim = consts["udp_MAX_RESPONSE_PEERS_LIMIT"] if consts.get("udp_validates_max_response_peers") else 10**9
+    n = (buf - 20) // 18 + 1
+    if lim >= n:
+        add("udp (mio): a configuration with max_response_peers = %d is accepted, and an IPv6 announce reply with %d peers is %d bytes > BUFFER_SIZE %d: it cannot be serialized and is dropped" % (n, n, 20 + 18 * n, buf),
+            config=dict(max_response_peers=n), reply_bytes=20 + 18 * n, buffer=buf)
+    ubuf = consts["uring_RESPONSE_BUF_LEN"]
+    ulim = min(lim, consts["uring_MAX_RESPONSE_PEERS_LIMIT"] if consts.get("uring_validates_max_response_peers") else 10**9)
+    n = (ubuf - 20) // 18 + 1
+    if ulim >= n:
+        add("udp (io_uring): max_response_peers = %d is accepted, and an IPv6 announce reply with %d peers is %d bytes > RESPONSE_BUF_LEN %d" % (n, n, 20 + 18 * n, ubuf),
+            config=dict(max_response_peers=n, use_io_uring=True), reply_bytes=20 + 18 * n, buffer=ubuf)
+    rbuf, qbuf = consts["http_RESPONSE_BUFFER_SIZE"], consts["http_REQUEST_BUFFER_SIZE"]
+    hashes = qbuf // 31
+    need = 45 + 11 + 70 * hashes + 2   # one-digit counters: 68 + 2 bytes per torrent
+    if need > rbuf:
+        k = (rbuf - 58) // 70 + 1
+        add("http: a scrape naming %d torrents fits the %d byte request buffer, but its reply (45 byte header + 11 + 70 per torrent with one-digit counters + CRLF = %d bytes) exceeds RESPONSE_BUFFER_SIZE %d: the connection is closed without a reply" % (k, qbuf, 45 + 11 + 70 * k + 2, rbuf),
+            request="GET /scrape?" + "&".join(["info_hash=<20 raw bytes>"] * 2) + "&... (%d hashes)" % k, reply_bytes=45 + 11 + 70 * k + 2, buffer=rbuf)
+    elif 45 + 11 + 108 * hashes + 2 > rbuf:
+        add("http: a scrape naming %d torrents with 20-digit counters needs %d bytes > RESPONSE_BUFFER_SIZE %d" % (hashes, 45 + 11 + 108 * hashes + 2, rbuf),
+            reply_bytes=45 + 11 + 108 * hashes + 2, buffer=rbuf)
+    plim = consts["http_MAX_PEERS_LIMIT"] if consts.get("http_validates_max_peers") else 10**9
+    n = (rbuf - 45 - 2 - 158) // 18 + 1
+    if plim >= n:
+        add("http: max_peers = %d is accepted, and an IPv6 announce reply with %d peers can need %d bytes > RESPONSE_BUFFER_SIZE %d" % (n, n, 45 + 158 + 18 * n + 2, rbuf),
+            config=dict(max_peers=n), reply_bytes=45 + 158 + 18 * n + 2, buffer=rbuf)
+    return out
+
+
+PROPS["C18"] = dict(
+    on_proof_failure=[c18_search],
+    suites=[dict(name="http-resp", harness="http-resp", imports=["HttpRespCheck"], case_type="bool * list resp_case",
+                 check="http_resp_code", monitor="http_resp_code", count_quick=200, count_thorough=5000, nontrivial_bits=3, shrink=False),
+            dict(name="udp-codec-lengths", harness="udp-codec", imports=["UdpCodecGen", "UdpCodecFacts"], case_type="bool * list codec_case",
+                 check="udp_codec_code", monitor="udp_codec_bep15_code", count_quick=200, count_thorough=5000, nontrivial_bits=3, shrink=False),
+            dict(name="config-refusal", harness="config-refusal", imports=["HttpRespCheck"], case_type="bool * list (N * N * bool)",
+                 check="refusal_code", monitor="refusal_code", count_quick=2, count_thorough=4, nontrivial_bits=3, shrink=False)],
+    rule="http-resp: the real AnnounceResponse / ScrapeResponse / FailureResponse write_bytes for 0..50 peers of either family, 0..66 scrape "
+         "entries, counters in {0,9,10,usize::MAX,random}, warnings, compared byte for byte with the model writers (whose lengths the "
+         "theorems bound); udp-codec-lengths: the udp writers against the codec model; config-refusal: aquatic_udp::run and aquatic_http::run "
+         "called with max_response_peers / max_peers one above the declared limit must return an error",
+    modelled="reply writers (HttpResp.v, UdpCodec.v), the framing of connection.rs write_response (HttpResp.v frame_response), the start-up "
+             "validations of the run() functions as regenerated boolean facts + limits (Gen/Consts.v)",
+    assumptions=["a scrape request naming n info hashes is at least 31*n bytes long (\"info_hash=\" + 20 value bytes + separator); a udp scrape "
+                 "datagram naming n hashes is 16+20n bytes", "TCP short writes of the framed reply (`write`, not `write_all`) are runtime"],
+    known_reproduces=lambda kf: True,
+)
+
 LEVELS = {
     "C01": dict(
         text="Refinement theorem (Coq, induction over all finite histories, all offsets, any inline capacity): the sequential model of "
@@ -258,6 +320,15 @@ LEVELS["C03"] = dict(
          "proxy the last element of the last occurrence of the exactly-named header decides. Tied to the code by unit-level differential runs.",
     design_ref="DESIGN.md §7 C03", technique="Coq non-interference / canonicalisation laws + in-Coq correspondence",
     note="Trusted: Coq kernel, model, harness, httparse, std's IpAddr parser (table). Partial: kernel-reported source address.")
+
+LEVELS["C18"] = dict(
+    text="Theorems over ALL accepted configurations and all counters: reply lengths are derived from the codec models; every announce reply "
+         "(both families) and scrape reply fits BUFFER_SIZE (mio), RESPONSE_BUF_LEN (io_uring) resp. the http response buffer incl. header "
+         "and CRLF; the framing delivers a fitting body whole with the right Content-Length and reports an overflow instead of truncating. "
+         "Buffer sizes, limits, header literals and the presence of the refusing validations are re-read from the source every run. The "
+         "original tree violated the property (recorded as fixed findings).",
+    design_ref="DESIGN.md §7 C18", technique="Coq arithmetic over source-regenerated constants + translator + in-Coq correspondence of writers",
+    note="Trusted: Coq kernel, translator (constants, guards), writer models, harness.")
 
 NOT_APPLICABLE = [
     dict(property_id=p, reason="check not built yet in this round (work in progress; planned per DESIGN.md §10)")
